@@ -15,7 +15,7 @@ from typing import Optional, Any
 import elementpath.aliases as ta
 
 from elementpath.exceptions import ElementPathValueError
-from elementpath.datatypes import AnyAtomicType
+from elementpath.datatypes import AnyAtomicType, AbstractDateTime, Base64Binary
 from elementpath.sequences import xlist
 from elementpath.helpers import split_function_test
 from elementpath.sequence_types import match_sequence_type, is_sequence_type_restriction
@@ -31,11 +31,17 @@ def dict_key(key: Any) -> Any:
     The key under which an atomic value is stored in the dictionary of a map: NaN is
     stored under None, and a boolean under a wrapper, because for Python True == 1 and
     hash(True) == hash(1) while op:same-key never identifies a boolean with a number.
+    A date/time value without timezone and an xs:base64Binary are wrapped too: they are
+    == to the value with timezone Z and to an xs:hexBinary with the same octets.
     """
     if isinstance(key, bool):
         return _TRUE_KEY if key else _FALSE_KEY
     elif isinstance(key, float) and math.isnan(key):
         return None
+    elif isinstance(key, AbstractDateTime) and key.tzinfo is None:
+        return 'no timezone', key  # op:same-key: both or neither value must have a timezone
+    elif isinstance(key, Base64Binary):
+        return 'xs:base64Binary', key  # not the same key as an xs:hexBinary with equal octets
     return key
 
 
